@@ -18,7 +18,30 @@ import (
 
 func init() {
 	checks["C13"] = checkC13
-	replays["C13"] = opsReplay("codec", runCodecOps, nil)
+	replays["C13"] = opsReplay("codec", runCodecOps, codecReplayOracle)
+}
+
+// codecReplayOracle re-judges the ops of a replay file whose verdict does not need the model: what a refused
+// file handle leaves in the stream.
+func codecReplayOracle(r *Result, ops, impl []string) {
+	for i, op := range ops {
+		f := strings.Fields(op)
+		if len(f) != 3 || f[0] != "xdr" || f[1] != "decfh" || i >= len(impl) {
+			continue
+		}
+		in := unhx(f[2])
+		if len(in) < 4 {
+			continue
+		}
+		l := binary.BigEndian.Uint32(in)
+		padded := int((l + 3) &^ 3)
+		if l > 64 || l == 8 || len(in) < 4+padded {
+			continue
+		}
+		if want := "none rest=" + hx(in[4+padded:]); impl[i] != want {
+			r.violate(Violation{Class: "C13/fh-refusal-desync", What: fmt.Sprintf("a refused %d-byte file handle left %q in the stream, expected %q (the handle and its padding consumed)", l, impl[i], want), Ops: []string{op}})
+		}
+	}
 }
 
 func u32(v uint32) []byte { b := make([]byte, 4); binary.BigEndian.PutUint32(b, v); return b }
@@ -58,7 +81,8 @@ func runCodecOp(op string) (line string) {
 		r := bytes.NewReader(unhx(f[2]))
 		h, err := absnfs.VerifXdrDecodeFileHandle(r)
 		if err != nil {
-			return "none"
+			// what a refusal leaves in the stream matters too: a wrong-size handle is skipped with its padding
+			return "none rest=" + hx(rest(r))
 		}
 		return fmt.Sprintf("some %d rest=%s", h, hx(rest(r)))
 	case f[0] == "xdr" && f[1] == "encfh":
@@ -300,13 +324,29 @@ func checkC13(r *Result, rng *rand.Rand, thorough bool) {
 			_ = d
 		}
 		// ---- file handles
-		for _, l := range []uint32{0, 1, 4, 7, 8, 9, 12, 63, 64, 65, 1 << 20, 0xffffffff} {
+		for _, l := range []uint32{0, 1, 2, 3, 4, 5, 6, 7, 8, 9, 10, 11, 12, 13, 31, 33, 61, 62, 63, 64, 65, 1 << 20, 0xffffffff} {
 			body := randBytes(rng, int((l+3)&^3)%128)
 			if l > 64 {
 				body = randBytes(rng, 16)
 			}
 			in := append(u32(l), body...)
 			add("decfh", "xdr decfh "+hx(in))
+			// the same handle followed by the next item of the argument list, and cut short inside its padding
+			withNext := append(append([]byte{}, in...), xdrOpaque([]byte("next-item"))...)
+			add("decfh", "xdr decfh "+hx(withNext))
+			if l <= 64 && l != 8 {
+				// oracle (independent of the model): a complete wrong-size handle is consumed with its padding,
+				// so the next item decodes as it was encoded
+				rd := bytes.NewReader(withNext)
+				_, err := absnfs.VerifXdrDecodeFileHandle(rd)
+				next, nerr := absnfs.VerifXdrDecodeString(rd)
+				if err == nil || nerr != nil || next != "next-item" || rd.Len() != 0 {
+					r.violate(Violation{Class: "C13/fh-refusal-desync", What: fmt.Sprintf("after a refused %d-byte file handle the next item decodes as %q (err %v, %d bytes left) instead of \"next-item\": the handle was not consumed with its padding", l, next, nerr, rd.Len()), Ops: []string{"xdr decfh " + hx(withNext)}})
+				}
+			}
+			if l <= 64 && len(in) > 5 {
+				add("decfh", "xdr decfh "+hx(in[:len(in)-1-rng.Intn(2)]))
+			}
 			if l > 64 {
 				var err error
 				d := allocDelta(func() { _, err = absnfs.VerifXdrDecodeFileHandle(bytes.NewReader(in)) })
